@@ -10,23 +10,23 @@
    Level = "code":   only conformance - the returned task is the one the transcription of the C code (q) selects
                      (used to count model/code divergences and to recognise a known defect class; never a verdict).
    Level = "report": as "prop", but a select that breaks the demand does not stop the validation: its execution number
-                     is collected in rej and printed at the end (cheap location of rejected executions in a batch;
-                     each reported execution is then validated alone with Level "prop"). *)
+                     is collected in rej (the first 40; nrej counts all) and printed at the end (cheap location of
+                     rejected executions in a batch; reported executions are then validated alone with Level "prop"). *)
 EXTENDS Priority, IOUtils
 CONSTANTS Level
-VARIABLES l, nex, rej
-tvars == <<mode, pend, q, nsched, hist, l, nex, rej>>
+VARIABLES l, nex, rej, nrej, flagged
+tvars == <<mode, pend, q, nsched, hist, l, nex, rej, nrej, flagged>>
 TraceLog == ndJsonDeserialize(IOEnv.TRACE)
 Ev == TraceLog[l]
 IsEv(e) == l <= Len(TraceLog) /\ Ev.e = e /\ l' = l + 1
 
-TInit == mode = "none" /\ pend = {} /\ q = <<>> /\ nsched = 0 /\ hist = <<>> /\ l = 1 /\ nex = 1 /\ rej = {}
+TInit == mode = "none" /\ pend = {} /\ q = <<>> /\ nsched = 0 /\ hist = <<>> /\ l = 1 /\ nex = 1 /\ rej = {} /\ nrej = 0 /\ flagged = FALSE
 TMode == /\ IsEv("Mode") /\ mode = "none" /\ Ev.m \in {"ap", "ip", "spq"}
-         /\ mode' = Ev.m /\ UNCHANGED <<pend, q, nsched, hist, nex, rej>>
+         /\ mode' = Ev.m /\ UNCHANGED <<pend, q, nsched, hist, nex, rej, nrej, flagged>>
 TReset == /\ IsEv("Reset")
-          /\ mode' = "none" /\ pend' = {} /\ q' = <<>> /\ nsched' = 0 /\ nex' = nex + 1 /\ UNCHANGED <<hist, rej>>
+          /\ mode' = "none" /\ pend' = {} /\ q' = <<>> /\ nsched' = 0 /\ nex' = nex + 1 /\ flagged' = FALSE /\ UNCHANGED <<hist, rej, nrej>>
 TEnd == /\ IsEv("End") /\ mode # "none" /\ (Level = "prop" => pend = {})
-        /\ UNCHANGED <<mode, pend, q, nsched, hist, nex, rej>>
+        /\ UNCHANGED <<mode, pend, q, nsched, hist, nex, rej, nrej, flagged>>
 TSchedule == /\ IsEv("S") /\ mode # "none"
              /\ Len(Ev.ids) = Len(Ev.ps) /\ Len(Ev.ids) >= 1
              /\ \A i \in 1..Len(Ev.ids) : Ev.ids[i] = nsched + i
@@ -34,11 +34,14 @@ TSchedule == /\ IsEv("S") /\ mode # "none"
                 IN /\ pend' = pend \cup Range(items)
                    /\ q' = IF Level = "code" THEN ImplSchedule(q, items, Ev.d) ELSE q
              /\ nsched' = nsched + Len(Ev.ids)
-             /\ UNCHANGED <<mode, hist, nex, rej>>
+             /\ UNCHANGED <<mode, hist, nex, rej, nrej, flagged>>
 Demand == IF pend = {} THEN Ev.id = 0 ELSE \E t \in Allowed(pend) : t.id = Ev.id
 TSelect == /\ IsEv("X") /\ mode # "none"
            /\ Level = "prop" => Demand
-           /\ rej' = IF Level = "report" /\ ~Demand THEN rej \cup {nex} ELSE rej
+           /\ LET bad == Level = "report" /\ ~Demand /\ ~flagged
+              IN /\ rej' = IF bad /\ nrej < 40 THEN rej \cup {nex} ELSE rej
+                 /\ nrej' = IF bad THEN nrej + 1 ELSE nrej
+                 /\ flagged' = (flagged \/ bad)
            /\ pend' = {t \in pend : t.id # Ev.id}
            /\ IF Level = "code"
               THEN LET r == ImplSelect(q) IN r[1].id = Ev.id /\ q' = r[2]
@@ -47,5 +50,5 @@ TSelect == /\ IsEv("X") /\ mode # "none"
 TNext == TMode \/ TReset \/ TEnd \/ TSchedule \/ TSelect
 TSpec == TInit /\ [][TNext]_tvars
 AcceptExit == (l > Len(TraceLog)) =>
-                 (PrintT(<<"VERIF-REJECTS", ToJson(rej)>>) /\ PrintT("VERIF-ACCEPTED") /\ TLCSet("exit", TRUE))
+                 (PrintT("VERIF-REJECTS " \o ToJson([n |-> nrej, first |-> rej])) /\ PrintT("VERIF-ACCEPTED") /\ TLCSet("exit", TRUE))
 ==============================================================================
